@@ -176,6 +176,8 @@ package dns
 //@ func dnsutil.TrimDomainName [C19]
 //@   opt no-safety
 //@   ensures empty: len(s) == 0 ==> len(ret0) == 1 && ret0[0] == '@'
+// "This function will never return "", but returns "@" instead": the apex under the root origin included
+//@   exit never: !called("IsSubDomain") ==> len(ret0) > 0
 //@   callsite "IsSubDomain" order: arg0 == origin && arg1 == s
 //@   callsite "CompareDomainName" both: arg0 == s && arg1 == origin
 //@   callsite "Split" which: arg0 == s || arg0 == origin
